@@ -32,6 +32,13 @@ Lines (one output line each)
   render <rule>                 -> <text>
   parse <text>                  -> ok <rule> | valueerror | outofdomain
   gate <declared> <received> <body>   -> none | call <body>
+  preset                        -> ok                                     (fresh proxy: selections, _signalRules)
+  select <name> <interface> <ifaces>  -> none | <iface> <declared>        (notifyOnSignal's interface selection; remembered)
+       ifaces: `.` or `|`-separated `name:sigs`, sigs: `.` or `;`-separated `signal=declared`
+  gatesel <i> <received> <body> -> none | call <body>                     (gate with the declaration of the i-th select)
+  psub <id>                     -> ok                                     (on_ok: _signalRules.add)
+  pcancel <id>                  -> del <id> | noop                        (cancelSignalNotification)
+  meaning <text>                -> none | `;`-separated constraints       (Spec.ruleTextMeaning)
 -/
 open Txdbus.Route
 
@@ -139,9 +146,43 @@ def showPyVal : PyVal → String
 def showKVs (l : List (Str × PyVal)) : String :=
   if l.isEmpty then "." else ";".intercalate (l.map fun kv => String.ofList kv.1 ++ ":" ++ showPyVal kv.2)
 
+def sigs? (t : String) : Option (List (Str × Str)) :=
+  if t == "." then some []
+  else (t.splitOn ";").mapM fun kv =>
+    match kv.splitOn "=" with
+    | [k, v] => do
+      let k ← Driver.hexToChars? k
+      let v ← Driver.hexToChars? v
+      pure (k, v)
+    | _ => none
+
+def ifaces? (t : String) : Option (List IfaceDecl) :=
+  if t == "." then some []
+  else (t.splitOn "|").mapM fun e =>
+    match e.splitOn ":" with
+    | [n, ss] => do
+      let n ← Driver.hexToChars? n
+      let ss ← sigs? ss
+      pure { name := n, signals := ss }
+    | _ => none
+
+def showConstraint : Spec.Constraint → String
+  | .mtype v => "type=" ++ Driver.charsToHex v
+  | .sender v => "sender=" ++ Driver.charsToHex v
+  | .iface v => "interface=" ++ Driver.charsToHex v
+  | .member v => "member=" ++ Driver.charsToHex v
+  | .path v => "path=" ++ Driver.charsToHex v
+  | .pathNs v => "path_namespace=" ++ Driver.charsToHex v
+  | .dest v => "destination=" ++ Driver.charsToHex v
+  | .arg0ns v => "arg0namespace=" ++ Driver.charsToHex v
+  | .arg i v => "arg" ++ toString i ++ "=" ++ Driver.charsToHex v
+  | .argPath i v => "arg" ++ toString i ++ "path=" ++ Driver.charsToHex v
+
 structure St where
   router : Router := {}
   client : Client := {}
+  sels : List (Option (Str × Str)) := []
+  subs : ProxySubs := {}
 
 def T : Tables := Tables.gen
 
@@ -172,6 +213,44 @@ def step (st : St) (line : String) : St × String :=
       | .error _ => (st, "addfailed")
     | _ => (st, "badinput")
   | ["reset"] => ({}, "ok")
+  | ["preset"] => ({ st with sels := [], subs := {} }, "ok")
+  | ["select", n, r, ifs] =>
+    match Driver.hexToChars? n, optStr? r, ifaces? ifs with
+    | some n, some r, some ifs =>
+      let res := selectSignal n r ifs
+      ({ st with sels := st.sels ++ [res] },
+       match res with
+       | none => "none"
+       | some (i, sg) => Driver.charsToHex i ++ " " ++ Driver.charsToHex sg)
+    | _, _, _ => (st, "badinput")
+  | ["gatesel", i, r, b] =>
+    match i.toNat?, optStr? r, body? b with
+    | some i, some r, some b =>
+      match st.sels[i]? with
+      | some (some (_, sg)) =>
+        match proxyGate (some sg) r b with
+        | none => (st, "none")
+        | some args => (st, "call " ++ showBody args)
+      | _ => (st, "none")
+    | _, _, _ => (st, "badinput")
+  | ["psub", id] =>
+    match id.toNat? with
+    | some id => ({ st with subs := st.subs.onOk id }, "ok")
+    | none => (st, "badinput")
+  | ["pcancel", id] =>
+    match id.toNat? with
+    | some id =>
+      match st.subs.cancel id with
+      | (p, some i) => ({ st with subs := p }, "del " ++ toString i)
+      | (p, none) => ({ st with subs := p }, "noop")
+    | none => (st, "badinput")
+  | ["meaning", t] =>
+    match Driver.hexToChars? t with
+    | some text =>
+      match Spec.ruleTextMeaning text with
+      | none => (st, "none")
+      | some cs => (st, if cs.isEmpty then "." else ";".intercalate (cs.map showConstraint))
+    | none => (st, "badinput")
   | "add" :: cb :: rest =>
     match cb.toNat?, rule? rest with
     | some cb, some (a, []) =>
